@@ -10,7 +10,7 @@
 //!
 //! With the cfg flag off this file is not compiled at all.
 
-use std::cell::Cell;
+use std::cell::{Cell, RefCell};
 use std::collections::hash_map;
 use std::fmt;
 use std::hash::{BuildHasher, Hash, Hasher};
@@ -20,6 +20,45 @@ use std::ops::{Deref, DerefMut};
 thread_local! {
     static STREAM: Cell<u64> = Cell::new(0x5EED_5EED_5EED_5EED);
     static DRAWN: Cell<u64> = Cell::new(0);
+}
+
+thread_local! {
+    static IO_FAULT: RefCell<Option<(String, String)>> = RefCell::new(None);
+    static IO_FAULTS_FIRED: Cell<u64> = Cell::new(0);
+}
+
+/// Arm a one-shot I/O fault: the next `op` ("read", "write" or "list") that a
+/// filesystem layer rooted at `layer_root` performs fails with EIO instead of
+/// touching the disk. A simulator uses this to fail one layer's access while
+/// the other layers keep working, which resource limits cannot do.
+pub fn set_io_fault(op: &str, layer_root: &str) {
+    IO_FAULT.with(|f| *f.borrow_mut() = Some((op.to_string(), layer_root.to_string())));
+}
+
+pub fn clear_io_fault() {
+    IO_FAULT.with(|f| *f.borrow_mut() = None);
+}
+
+pub fn io_faults_fired() -> u64 {
+    IO_FAULTS_FIRED.with(|c| c.get())
+}
+
+/// Called by the filesystem layer before the real I/O.
+pub fn io_fault(op: &str, layer_root: &str) -> Option<std::io::Error> {
+    let hit = IO_FAULT.with(|f| {
+        let mut slot = f.borrow_mut();
+        let matches = matches!(&*slot, Some((o, r)) if o == op && r == layer_root);
+        if matches {
+            *slot = None;
+        }
+        matches
+    });
+    if hit {
+        IO_FAULTS_FIRED.with(|c| c.set(c.get() + 1));
+        Some(std::io::Error::from_raw_os_error(5))
+    } else {
+        None
+    }
 }
 
 /// Re-seed the per-thread hash key stream. Every map created afterwards on
